@@ -52,6 +52,9 @@ def check(ctx: Ctx) -> str:
 
     r3_safe_repr(ctx, "R6")
     call_emission_rule(ctx, "R7")
+    from .c08 import lookup_fold_agreement_rule
+
+    lookup_fold_agreement_rule(ctx, "R8")
     # built-in filters over dotted attribute paths (rule owned by C22)
     from . import c22
 
